@@ -8,9 +8,12 @@ META = dict(
                 "position, blind seek in a single node) is checked to refine it.  Every Read/Seek/WriteTo sequence of length 2 (+ length 3 on sizes 0..2, quick) "
                 "/ 3 on sizes 0..4 (thorough) over sizes 0..6, buffers 0..6, offsets -size-2..size+2, 3 whences + invalid whence, plus "
                 "simulated length-30 sequences, is replayed on real DagReaders over balanced/trickle DAGs with raw and dag-pb "
-                "leaves, chunk 1..3, width 2, and over DagModifier-produced DAGs, with Read, CtxReadFull and alternating APIs; "
+                "leaves, chunk 1..3, width 2, and over DagModifier-produced DAGs; the read calls of the alphabet are Read, CtxReadFull with "
+                "a live context and CtxReadFull with a per-call context that the harness cancels right after the call returned "
+                "(the spec states that contexts cancelled by earlier calls are irrelevant: DeadContextsIrrelevant); "
                 "n, bytes, EOF, error and offset of every call are compared.  Random 30-op histories on files up to 2 MiB "
-                "(size/rabin/buzhash chunkers, widths 2..174) are validated by TraceSeekReader."),
+                "(size/rabin/buzhash chunkers, widths 2..174), there also with contexts cancelled BEFORE the call (may fail with the "
+                "context's error after a prefix, position behind the delivered bytes), are validated by TraceSeekReader."),
     level_note=("Trusted: in-memory DAGService, chunkers/importers as DAG producers, harness comparison of delivered bytes. "
                 "EOF rule = documented 'always attempts a full read' contract (io.ReadFull with ErrUnexpectedEOF as EOF); "
                 "for empty buffers at/after the end both nil and EOF are accepted (io.Reader permits both)."),
@@ -23,8 +26,10 @@ def run(ctx):
                         "the harness comparison buf[:n] == content[lo:lo+n] is correct",
                         "empty read buffer at/after EOF: (0,nil) and (0,EOF) both conform"]
     ctx.cov["rule"] = ("G: every op sequence of depth D from GenSeekReader (size 0..6, k 0..6, seek offsets -size-2..size+2 x "
-                       "3 whences, invalid whence, WriteTo) + simulated length-30 sequences; each is replayed on 36 DAG variants "
-                       "(6 producers x raw/pb leaves x chunk 1..3) x 3 API variants.  T: random 30-op runs on large files. "
+                       "3 whences, invalid whence, WriteTo; reads as Read / CtxReadFull[live ctx] / CtxReadFull[own ctx, cancelled after the call]) "
+                       "+ simulated length-30 sequences; each is replayed on 36 DAG variants "
+                       "(6 producers x raw/pb leaves x chunk 1..3).  T: random 30-op runs on large files, CtxReadFull contexts "
+                       "live / cancelled after / cancelled before the call. "
                        "non-trivial = behaviour with a successful seek followed by a read/WriteTo that delivers >= 1 byte")
     # M
     # (VERIF_SKIP_M=1: skip the code-independent phase M -- only for mutation self-tests of the binding)
